@@ -132,7 +132,8 @@ Notation L := (bounds_spec lo hi (prune_spec t O)).
 Definition tabs (s : machine) (mids : list N) : list (list entry) := map (look_of s) mids ++ [V].
 
 Definition CI2 (s : machine) (P : Z) (pend : Z) : Prop :=
-  Inv s /\ (t <= ms_seq s)%N /\ exists sc, find_scan s cid = Some sc /\ NoDup (sc_mems sc) /\
+  Inv s /\ ((t <= ms_vis s)%N /\ (ms_vis s <= ms_seq s)%N /\ forall e, In e V -> (ets e <= t)%N) /\
+  exists sc, find_scan s cid = Some sc /\ NoDup (sc_mems sc) /\
     TI (sc_x sc) P /\ ids5 (map Some (sc_mems sc) ++ [None]) (sc_x sc) /\
     (forall k, In k (top_kids (sc_x sc)) -> forall m tab gp pos fl,
        k = XB lo hi (mkB (XG m (mkG tab gp)) pos fl) -> grows t tab (look_of s m)) /\
@@ -155,51 +156,54 @@ Proof.
 Qed.
 
 (* an event that changes none of the cursor's lists, nor its record *)
-Lemma CI2_same s s' P pend : CI2 s P pend -> Inv s' -> (ms_seq s <= ms_seq s')%N -> find_scan s' cid = find_scan s cid ->
+Lemma CI2_same s s' P pend : CI2 s P pend -> Inv s' -> (ms_seq s <= ms_seq s')%N ->
+  ((ms_vis s <= ms_vis s')%N /\ (ms_vis s' <= ms_seq s')%N) -> find_scan s' cid = find_scan s cid ->
   (forall sc, find_scan s cid = Some sc -> forall m, In m (sc_mems sc) -> look_of s' m = look_of s m) -> CI2 s' P pend.
 Proof.
-  intros [HI [Ht [sc [Hfs [Hnd [HT [Hids [Hg [Hso [Hd [Hts [Hsz Hp]]]]]]]]]]]] HI' Hseq Efs Hlook.
+  intros [HI [[Ht [Hvs HtV]] [sc [Hfs [Hnd [HT [Hids [Hg [Hso [Hd [Hts [Hsz Hp]]]]]]]]]]]] HI' Hseq [Hv1 Hv2] Efs Hlook.
   specialize (Hlook sc Hfs).
   assert (tabs s' (sc_mems sc) = tabs s (sc_mems sc)) as Et by (unfold tabs; f_equal; apply map_ext_in; exact Hlook).
-  split; [exact HI'|]. split; [lia|]. exists sc. rewrite Efs, Et. split; [exact Hfs|]. split; [exact Hnd|]. split; [exact HT|]. split; [exact Hids|].
+  split; [exact HI'|]. split; [split; [lia|split; [exact Hv2|exact HtV]]|]. exists sc. rewrite Efs, Et. split; [exact Hfs|]. split; [exact Hnd|]. split; [exact HT|]. split; [exact Hids|].
   split; [|split; [|split; [exact Hd|split; [|auto]]]].
   - intros k Hk m tab gp pos fl Ek. rewrite (Hlook m (kid_mid _ _ _ _ _ _ _ _ Hids Hk Ek)). now apply (Hg k Hk m tab gp pos fl).
   - intros m Hm. rewrite (Hlook m Hm). now apply Hso.
   - intros e He. specialize (Hts e He). lia.
 Qed.
 
-(* a write *)
-Lemma CI2_write s P pend b : CI2 s P pend -> keys_distinctb (map fst b) = true -> len b <= pend ->
-  CI2 (do_write b s) P (pend - len b).
+(* entries newer than the snapshot, and different from everything the cursor holds, are inserted into
+   one of its memtables *)
+Lemma ins_grows l nw : sorted l -> distinct (nw ++ l) -> (forall e, In e nw -> (t < ets e)%N) ->
+  grows t l (ins_all nw l) /\ (forall e, In e (ins_all nw l) <-> In e nw \/ In e l).
 Proof.
-  intros HC Hkd Hlen. pose proof HC as [HI [Ht [sc [Hfs [Hnd [HT [Hids [Hg [Hso [Hd [Hts [Hsz Hp]]]]]]]]]]]].
-  assert (Inv (do_write b s)) as HI' by exact (proj1 (step_inv c Hio Hhv s (EWrite b) HI)).
-  assert (ms_seq (do_write b s) = (ms_seq s + 1)%N) as Eseq by reflexivity.
-  assert (find_scan (do_write b s) cid = find_scan s cid) as Efs by exact (scan_frame c s (EWrite b) cid eq_refl).
-  pose proof (find_scan_in s cid sc Hfs) as [Hsc _].
-  assert (forall m, In m (sc_mems sc) -> exists y, In y (ms_mts s) /\ mt_id y = m) as Hex by (intros m Hm; exact (a_sc _ (i_a _ HI) sc Hsc m Hm)).
-  pose proof (len_nonneg b) as Hb0.
-  destruct (in_dec N.eq_dec (ms_mem s) (sc_mems sc)) as [Hin|Hnin].
-  2:{ (* the active memtable is not one of the cursor's *)
-    assert (CI2 (do_write b s) P pend) as H.
-    { apply (CI2_same s); auto; [lia|]. intros sc' Hfs' m Hm. rewrite Hfs in Hfs'. injection Hfs' as <-.
-      rewrite (look_write s b m (Hex m Hm)). destruct (N.eqb_spec m (ms_mem s)) as [->|]; [contradiction|reflexivity]. }
-    destruct H as [A [B [sc' [C [D [E [F [G [H [I0 [J [K Lp]]]]]]]]]]]]. split; [exact A|]. split; [exact B|]. exists sc'. repeat (split; [assumption|]). lia. }
-  (* it is: its list grows by the batch, all of it newer than the snapshot and than everything the cursor holds *)
-  set (m0 := ms_mem s) in *. set (n := (ms_seq s + 1)%N). set (nw := new_ents n b).
-  set (look := look_of s). set (look' := look_of (do_write b s)).
-  assert (forall m, In m (sc_mems sc) -> m <> m0 -> look' m = look m) as Hsame.
-  { intros m Hm Hne. unfold look', look. rewrite (look_write s b m (Hex m Hm)). fold m0. destruct (N.eqb_spec m m0); [contradiction|reflexivity]. }
-  assert (look' m0 = ins_all nw (look m0)) as Em0.
-  { unfold look', look. rewrite (look_write s b m0 (Hex m0 Hin)). fold m0. now rewrite N.eqb_refl. }
-  assert (forall e, In e (look m0) -> (ets e < n)%N) as Hts0.
-  { intros e He. assert (ets e <= ms_seq s)%N; [|unfold n; lia]. apply Hts. unfold tabs. rewrite concat_app. apply in_or_app. left.
-    apply in_concat. exists (look m0). split; [now apply in_map|exact He]. }
-  destruct (write_grows t (look m0) b n (Hso m0 Hin) Hts0 ltac:(unfold n; lia) (keys_distinctb_ok _ Hkd)) as [Hgr Hmem].
-  fold nw in Hgr, Hmem. rewrite <- Em0 in Hgr, Hmem.
-  (* look' agrees with look outside m0 on the cursor's memtables *)
+  intros Hs Hd Hl.
+  assert (forall e, In e (ins_all nw l) <-> In e nw \/ In e l) as Hmem.
+  { intros e. split; intros H.
+    - apply (Permutation_in _ (ins_all_perm _ _)) in H. now apply in_app_or in H.
+    - apply (Permutation_in _ (Permutation_sym (ins_all_perm _ _))). now apply in_or_app. }
+  split; [|exact Hmem]. split; [now apply ins_all_sorted|]. split.
+  - intros x Hx. apply Hmem. now right.
+  - intros x Hx. apply Hmem in Hx. destruct Hx as [Hx|Hx]; [right; now apply Hl|now left].
+Qed.
+
+Lemma CI2_grow s s' P pend m0 nw : CI2 s P pend -> Inv s' -> (ms_seq s <= ms_seq s')%N ->
+  ((ms_vis s <= ms_vis s')%N /\ (ms_vis s' <= ms_seq s')%N) -> find_scan s' cid = find_scan s cid ->
+  (forall sc, find_scan s cid = Some sc -> In m0 (sc_mems sc) /\
+     (forall m, In m (sc_mems sc) -> m <> m0 -> look_of s' m = look_of s m) /\
+     (forall x y, In x nw -> In y (concat (tabs s (sc_mems sc))) -> ~ eeq x y)) ->
+  look_of s' m0 = ins_all nw (look_of s m0) -> distinct nw ->
+  (forall e, In e nw -> (t < ets e)%N /\ (ets e <= ms_seq s')%N) -> len nw <= pend ->
+  CI2 s' P (pend - len nw).
+Proof.
+  intros HC HI' Hseq [Hv1 Hv2] Efs Hsc Em0 Hdn Hnw Hlen.
+  pose proof HC as [HI [[Ht [Hvs HtV]] [sc [Hfs [Hnd [HT [Hids [Hg [Hso [Hd [Hts [Hsz Hp]]]]]]]]]]]].
+  destruct (Hsc sc Hfs) as [Hin [Hsame Hcross]]. pose proof (len_nonneg nw) as Hn0.
+  set (look := look_of s) in *. set (look' := look_of s') in *.
+  assert (distinct (nw ++ look m0)) as Hdm.
+  { apply distinct_app_intro; [exact Hdn|apply sorted_distinct; now apply Hso|]. intros x y Hx Hy. apply Hcross; [exact Hx|].
+    unfold tabs. rewrite concat_app. apply in_or_app. left. apply in_concat. exists (look m0). split; [now apply in_map|exact Hy]. }
+  destruct (ins_grows (look m0) nw (Hso m0 Hin) Hdm (fun e He => proj1 (Hnw e He))) as [Hgr Hmem]. rewrite <- Em0 in Hgr, Hmem.
   assert (Permutation (concat (map look' (sc_mems sc))) (nw ++ concat (map look (sc_mems sc))) /\
-          lsum (map look' (sc_mems sc)) = lsum (map look (sc_mems sc)) + len b) as [HPc Hls].
+          lsum (map look' (sc_mems sc)) = lsum (map look (sc_mems sc)) + len nw) as [HPc Hls].
   { set (lk := fun m => if N.eqb m m0 then look' m0 else look m).
     assert (map look' (sc_mems sc) = map lk (sc_mems sc)) as Emap.
     { apply map_ext_in. intros m Hm. unfold lk. destruct (N.eqb_spec m m0) as [->|Hne]; [reflexivity|now apply Hsame]. }
@@ -207,25 +211,93 @@ Proof.
     - apply (concat_one_change look lk m0 nw _ Hnd Hin).
       + intros m Hne. unfold lk. destruct (N.eqb_spec m m0); [contradiction|reflexivity].
       + unfold lk. rewrite N.eqb_refl, Em0. apply ins_all_perm.
-    - apply (lsum_one_change look lk m0 (len b) _ Hnd Hin).
+    - apply (lsum_one_change look lk m0 (len nw) _ Hnd Hin).
       + intros m Hne. unfold lk. destruct (N.eqb_spec m m0); [contradiction|reflexivity].
-      + unfold lk. rewrite N.eqb_refl, Em0, len_ins_all. unfold nw, new_ents, len. rewrite map_length. reflexivity. }
-  split; [exact HI'|]. split; [lia|]. exists sc. rewrite Efs. split; [exact Hfs|]. split; [exact Hnd|]. split; [exact HT|]. split; [exact Hids|].
-  fold look'. unfold tabs in *. fold look look' in Hd, Hts, Hsz |- *.
+      + unfold lk. rewrite N.eqb_refl, Em0, len_ins_all. reflexivity. }
+  split; [exact HI'|]. split; [split; [lia|split; [exact Hv2|exact HtV]]|]. exists sc. rewrite Efs. split; [exact Hfs|]. split; [exact Hnd|]. split; [exact HT|]. split; [exact Hids|].
+  unfold tabs in *. fold look look' in Hd, Hts, Hsz, Hcross |- *.
   split; [|split; [|split; [|split; [|split]]]].
   - intros k Hk m tab gp pos fl Ek. pose proof (kid_mid _ _ _ _ _ _ _ _ Hids Hk Ek) as Hm. pose proof (Hg k Hk m tab gp pos fl Ek) as Hg0. fold look in Hg0.
-    destruct (N.eq_dec m m0) as [->|Hne]; [eapply grows_trans; eauto|rewrite (Hsame m Hm Hne); exact Hg0].
-  - intros m Hm. destruct (N.eq_dec m m0) as [->|Hne]; [exact (proj1 Hgr)|rewrite (Hsame m Hm Hne); now apply Hso].
+    fold look'. destruct (N.eq_dec m m0) as [->|Hne]; [eapply grows_trans; eauto|rewrite (Hsame m Hm Hne); exact Hg0].
+  - intros m Hm. fold look'. destruct (N.eq_dec m m0) as [->|Hne]; [exact (proj1 Hgr)|rewrite (Hsame m Hm Hne); now apply Hso].
   - rewrite concat_app. eapply distinct_perm; [symmetry; apply Permutation_app_tail; exact HPc|]. rewrite <- app_assoc, <- concat_app.
-    apply distinct_app_intro; [apply new_ents_distinct; now apply keys_distinctb_ok|exact Hd|].
-    intros x y Hx Hy He. apply eeq_ts in He. unfold nw in Hx. rewrite (new_ents_ts _ _ _ Hx) in He. specialize (Hts y Hy). unfold n in He. lia.
-  - intros e He. rewrite Eseq. rewrite concat_app in He. apply in_app_or in He. destruct He as [He|He].
-    + apply (Permutation_in _ HPc) in He. apply in_app_or in He. destruct He as [He|He].
-      * unfold nw in He. rewrite (new_ents_ts _ _ _ He). unfold n. lia.
-      * assert (ets e <= ms_seq s)%N; [|lia]. apply Hts. rewrite concat_app. apply in_or_app. now left.
+    apply distinct_app_intro; [exact Hdn|exact Hd|]. intros x y Hx Hy. now apply Hcross.
+  - intros e He. rewrite concat_app in He. apply in_app_or in He. destruct He as [He|He].
+    + apply (Permutation_in _ HPc) in He. apply in_app_or in He. destruct He as [He|He]; [exact (proj2 (Hnw e He))|].
+      assert (ets e <= ms_seq s)%N; [|lia]. apply Hts. rewrite concat_app. apply in_or_app. now left.
     + assert (ets e <= ms_seq s)%N; [|lia]. apply Hts. rewrite concat_app. apply in_or_app. now right.
   - rewrite lsum_app in *. rewrite Hls. lia.
   - lia.
+Qed.
+
+(* a write *)
+Lemma CI2_write s P pend b : CI2 s P pend -> keys_distinctb (map fst b) = true -> len b <= pend ->
+  CI2 (do_write b s) P (pend - len b).
+Proof.
+  intros HC Hkd Hlen. pose proof HC as [HI [[Ht [Hvs HtV]] [sc [Hfs [Hnd [HT [Hids [Hg [Hso [Hd [Hts [Hsz Hp]]]]]]]]]]]].
+  assert (Inv (do_write b s)) as HI' by exact (proj1 (step_inv c Hio Hhv s (EWrite b) HI)).
+  assert (ms_seq (do_write b s) = (ms_seq s + 1)%N /\ ms_vis (do_write b s) = (ms_seq s + 1)%N) as [Eseq Evis] by (split; reflexivity).
+  assert (find_scan (do_write b s) cid = find_scan s cid) as Efs by exact (scan_frame c s (EWrite b) cid eq_refl).
+  pose proof (find_scan_in s cid sc Hfs) as [Hsc _].
+  assert (forall m, In m (sc_mems sc) -> exists y, In y (ms_mts s) /\ mt_id y = m) as Hex by (intros m Hm; exact (a_sc _ (i_a _ HI) sc Hsc m Hm)).
+  pose proof (len_nonneg b) as Hb0.
+  destruct (in_dec N.eq_dec (ms_mem s) (sc_mems sc)) as [Hin|Hnin].
+  2:{ (* the active memtable is not one of the cursor's *)
+    assert (CI2 (do_write b s) P pend) as H.
+    { apply (CI2_same s); auto; [lia|lia|]. intros sc' Hfs' m Hm. rewrite Hfs in Hfs'. injection Hfs' as <-.
+      rewrite (look_write s b m (Hex m Hm)). destruct (N.eqb_spec m (ms_mem s)) as [->|]; [contradiction|reflexivity]. }
+    destruct H as [A [B [sc' [C [D [E [F [G [H [I0 [J [K Lp]]]]]]]]]]]]. split; [exact A|]. split; [exact B|]. exists sc'. repeat (split; [assumption|]). lia. }
+  set (n := (ms_seq s + 1)%N) in *.
+  replace (len b) with (len (new_ents n b)) by (unfold new_ents, len; now rewrite map_length).
+  apply (CI2_grow s _ P pend (ms_mem s) (new_ents n b)); auto; try lia.
+  - intros sc' Hfs'. rewrite Hfs in Hfs'. injection Hfs' as <-. split; [exact Hin|]. split.
+    + intros m Hm Hne. rewrite (look_write s b m (Hex m Hm)). destruct (N.eqb_spec m (ms_mem s)); [contradiction|reflexivity].
+    + intros x y Hx Hy He. apply eeq_ts in He. rewrite (new_ents_ts _ _ _ Hx) in He. specialize (Hts y Hy). unfold n in He. lia.
+  - rewrite (look_write s b _ (Hex _ Hin)). now rewrite N.eqb_refl.
+  - apply new_ents_distinct. now apply keys_distinctb_ok.
+  - intros e He. rewrite (new_ents_ts _ _ _ He), Eseq. unfold n. lia.
+  - unfold new_ents, len. rewrite map_length. exact Hlen.
+Qed.
+
+(* one entry of a write in flight is inserted *)
+Lemma fresh_in_ok s k n : fresh_in s k n = true -> forall m e v, In e (look_of s m) -> ~ eeq (mkE k n v) e.
+Proof.
+  intros Hf m e v He Hq. unfold look_of in He. destruct (find_mt s m) as [y|] eqn:E; [|destruct He].
+  destruct (find_mt_in s m y E) as [Hy _]. unfold fresh_in in Hf. rewrite forallb_forall in Hf. specialize (Hf y Hy).
+  rewrite forallb_forall in Hf. specialize (Hf e He). apply negb_true_iff in Hf.
+  pose proof (eeq_key _ _ Hq) as Hk. pose proof (eeq_ts _ _ Hq) as Ht. cbn [ek ets] in Hk, Ht.
+  rewrite <- Hk, <- Ht, N.eqb_refl in Hf. destruct (keqb_spec k k); [discriminate|congruence].
+Qed.
+
+Lemma CI2_insert s P pend m k n v : CI2 s P pend -> insert_ok s m k n = true -> 1 <= pend ->
+  CI2 (upd_mt (mt_insert (mkE k n v)) m s) P (pend - 1).
+Proof.
+  intros HC Hok Hlen. pose proof HC as [HI [[Ht [Hvs HtV]] [sc [Hfs [Hnd [HT [Hids [Hg [Hso [Hd [Hts [Hsz Hp]]]]]]]]]]]].
+  unfold insert_ok in Hok. apply andb_prop in Hok. destruct Hok as [Hok Hfresh]. apply andb_prop in Hok. destruct Hok as [Hok Hmt].
+  apply andb_prop in Hok. destruct Hok as [Hn1 Hn2]. apply N.ltb_lt in Hn1. apply N.leb_le in Hn2.
+  set (s' := upd_mt (mt_insert (mkE k n v)) m s).
+  assert (fst (mstep c s (EInsert m k n v)) = s') as Es'.
+  { cbn [mstep]. unfold insert_ok. apply N.ltb_lt in Hn1. apply N.leb_le in Hn2. now rewrite Hn1, Hn2, Hmt, Hfresh. }
+  assert (Inv s') as HI' by (rewrite <- Es'; exact (proj1 (step_inv c Hio Hhv s _ HI))).
+  pose proof (find_scan_in s cid sc Hfs) as [Hsc _].
+  assert (forall m1, In m1 (sc_mems sc) -> exists y, In y (ms_mts s) /\ mt_id y = m1) as Hex by (intros m1 Hm; exact (a_sc _ (i_a _ HI) sc Hsc m1 Hm)).
+  assert (forall m1, m1 <> m -> look_of s' m1 = look_of s m1) as Hother by (intros m1 Hne; apply look_of_upd; [reflexivity|now left]).
+  destruct (in_dec N.eq_dec m (sc_mems sc)) as [Hin|Hnin].
+  2:{ assert (CI2 s' P pend) as H.
+      { apply (CI2_same s); auto; [unfold s'; cbn; lia|unfold s'; cbn; lia|]. intros sc' Hfs' m1 Hm. rewrite Hfs in Hfs'. injection Hfs' as <-.
+        apply Hother. intros ->. contradiction. }
+      destruct H as [A [B [sc' [C [D [E [F [G [H [I0 [J [K Lp]]]]]]]]]]]]. split; [exact A|]. split; [exact B|]. exists sc'. repeat (split; [assumption|]). lia. }
+  change 1 with (len [mkE k n v]).
+  apply (CI2_grow s s' P pend m [mkE k n v]); auto.
+  - unfold s'. cbn. lia.
+  - unfold s'. cbn. lia.
+  - intros sc' Hfs'. rewrite Hfs in Hfs'. injection Hfs' as <-. split; [exact Hin|]. split; [intros m1 _ Hne; now apply Hother|].
+    intros x y [<-|[]] Hy. unfold tabs in Hy. rewrite concat_app in Hy. apply in_app_or in Hy. destruct Hy as [Hy|Hy].
+    + apply in_concat in Hy. destruct Hy as [l [Hl Hy]]. apply in_map_iff in Hl. destruct Hl as [m1 [<- _]]. exact (fresh_in_ok s k n Hfresh m1 y v Hy).
+    + cbn [concat] in Hy. rewrite app_nil_r in Hy. intros He. apply eeq_ts in He. cbn [ets] in He. specialize (HtV y Hy). lia.
+  - unfold s'. rewrite look_upd_same by reflexivity. unfold look_of. destruct (find_mt_ex s m (Hex m Hin)) as [y Hy]. rewrite Hy. reflexivity.
+  - constructor; [constructor|constructor].
+  - intros e [<-|[]]. cbn [ets]. unfold s'. cbn [ms_seq upd_mt set_mts]. lia.
 Qed.
 
 (* a call of the held cursor *)
@@ -257,7 +329,8 @@ Proof.
   - set (s1 := if cf_cache c then set_cache s (opened_between x x' ++ ms_cache s) else s) in *.
     assert (forall m, look_of (put_scan cid sc x' s1) m = look m) as Hlk by (intros m; apply look_of_mts; unfold s1; destruct (cf_cache c); reflexivity).
     assert (ms_seq (put_scan cid sc x' s1) = ms_seq s) as Eseq by (unfold s1; destruct (cf_cache c); reflexivity).
-    split; [exact HI'|]. split; [rewrite Eseq; exact Ht|]. eexists. split; [apply find_put_scan; unfold s1; destruct (cf_cache c); exact Hfs|].
+    assert (ms_vis (put_scan cid sc x' s1) = ms_vis s) as Evis by (unfold s1; destruct (cf_cache c); reflexivity).
+    split; [exact HI'|]. split; [rewrite Eseq, Evis; exact Ht|]. eexists. split; [apply find_put_scan; unfold s1; destruct (cf_cache c); exact Hfs|].
     cbn [sc_x sc_mems]. unfold tabs. rewrite (map_ext _ look) by exact Hlk. fold (tabs s (sc_mems sc)). rewrite Eseq.
     assert (ids5 (map Some (sc_mems sc) ++ [None]) x') as Hids' by (apply (ids5_closed fuel _ o); now apply ids5_refresh).
     split; [exact Hnd|]. split; [exact HT2|]. split; [exact Hids'|]. split; [|split; [intros m Hm; rewrite Hlk; now apply Hso|split; [exact Hd|split; [exact Hts|split; [exact Hsz|exact Hp]]]]].
@@ -275,7 +348,7 @@ Lemma held_step2 s P pend e : CI2 s P pend -> 0 <= T0 -> no_err (snd (mstep c s 
 Proof.
   intros HC HT0 Hne Hok Hw. cbv zeta.
   destruct (about cid e) eqn:Ha.
-  - destruct e as [b| |fid|levels|fs|fs|c0 lo0 hi0|c0 o|c0]; cbn [about] in Ha; try discriminate.
+  - destruct e as [b| |fid|levels|fs|fs|c0 lo0 hi0|c0 o|c0| |m' k n v|n]; cbn [about] in Ha; try discriminate.
     + cbn [okev] in Hok. rewrite Ha in Hok. discriminate.
     + apply N.eqb_eq in Ha. subst c0. rewrite N.eqb_refl. cbn [wlen]. rewrite Z.sub_0_r.
       destruct (CI2_call s P pend o HC HT0 Hne) as [H1 H2]. split; [exact H1|]. intros o0 E. injection E as <-. exact H2.
@@ -283,12 +356,14 @@ Proof.
   - assert (match e with EStep c0 o => if N.eqb c0 cid then step (ref L) o P else P | _ => P end = P) as ->.
     { destruct e; try reflexivity. cbn [about] in Ha. now rewrite Ha. }
     split; [|intros o Eo; subst e; cbn [about] in Ha; rewrite N.eqb_refl in Ha; discriminate].
-    destruct e as [b| |fid|levels|fs|fs|c0 lo0 hi0|c0 o|c0]; try (cbn [wlen]; rewrite Z.sub_0_r).
+    pose proof HC as [HI [[_ [Hvs _]] [sc [Hfs _]]]].
+    destruct e as [b| |fid|levels|fs|fs|c0 lo0 hi0|c0 o|c0| |m' k n v|n]; try (cbn [wlen]; rewrite Z.sub_0_r).
     1:{ cbn [mstep fst wlen okev] in *. now apply CI2_write. }
-    all: pose proof HC as [HI [_ [sc [Hfs _]]]];
-      (apply (CI2_same s); [exact HC|exact (proj1 (step_inv c Hio Hhv s _ HI))|apply seq_mono|now apply scan_frame|]);
+    10:{ (* one entry of a write in flight *)
+      cbn [mstep wlen] in *. destruct (insert_ok s m' k n) eqn:Eok; cbn [fst snd] in *; [|destruct Hne]. now apply CI2_insert. }
+    all: (apply (CI2_same s); [exact HC|exact (proj1 (step_inv c Hio Hhv s _ HI))|apply seq_mono|apply vis_mono; exact Hvs|now apply scan_frame|]);
       intros sc' Hfs' m Hm; rewrite Hfs in Hfs'; injection Hfs' as <-;
-      (apply look_stable; [exact (a_sc _ (i_a _ HI) sc (proj1 (find_scan_in s cid sc Hfs)) m Hm)|intros b0 Eb; discriminate]).
+      (apply look_stable; [exact (a_sc _ (i_a _ HI) sc (proj1 (find_scan_in s cid sc Hfs)) m Hm)|intros b0 Eb; discriminate|intros m1 k1 n1 v1 Eb; discriminate]).
 Qed.
 End Held2.
 
@@ -320,11 +395,11 @@ Proof.
   destruct o as [|ob|er]; [| |destruct Ho].
   - destruct (mrun c s' r) as [s'' os] eqn:Er. cbn [snd] in *. inversion Hne; subst.
     specialize (IH s' _ _ HC' Hok2 ltac:(lia)). rewrite Er in IH. cbn [snd] in IH. specialize (IH H2).
-    cbn [cursor_trace ref_trace]. destruct e as [b| |fid|levels|fs|fs|c0 lo0 hi0|c0 o|c0]; cbn [app]; try exact IH.
+    cbn [cursor_trace ref_trace]. destruct e as [b| |fid|levels|fs|fs|c0 lo0 hi0|c0 o|c0| |m' k n v|n]; cbn [app]; try exact IH.
     destruct (N.eqb c0 cid) eqn:Ec; [|exact IH]. apply N.eqb_eq in Ec. subst c0. specialize (Hobs o eq_refl). discriminate.
   - destruct (mrun c s' r) as [s'' os] eqn:Er. cbn [snd] in *. inversion Hne; subst.
     specialize (IH s' _ _ HC' Hok2 ltac:(lia)). rewrite Er in IH. cbn [snd] in IH. specialize (IH H2).
-    cbn [cursor_trace ref_trace]. destruct e as [b| |fid|levels|fs|fs|c0 lo0 hi0|c0 o|c0]; cbn [app]; try exact IH.
+    cbn [cursor_trace ref_trace]. destruct e as [b| |fid|levels|fs|fs|c0 lo0 hi0|c0 o|c0| |m' k n v|n]; cbn [app]; try exact IH.
     destruct (N.eqb c0 cid) eqn:Ec; [|exact IH]. apply N.eqb_eq in Ec. subst c0. specialize (Hobs o eq_refl).
     cbn [app]. rewrite ?N.eqb_refl in *. rewrite Hobs. f_equal. exact IH.
 Qed.
@@ -398,6 +473,7 @@ Hypothesis Hwf : scan_wf lo hi ls v.
 Hypothesis Hdist : distinct (all_entries ls v).
 Hypothesis Hvis : (t <= ms_seq s)%N.
 Hypothesis Hts : forall e, In e (all_entries ls v) -> (ets e <= ms_seq s)%N.
+Hypothesis HVt : forall e, In e (concat (map f_ents (concat v))) -> (ets e <= t)%N.
 Hypothesis Hfuel1 : Z.of_nat fuel > (2 * len O + 2) * (Z.of_nat (Bnd_m T0) + 2).
 Hypothesis Hfuel2 : Z.of_nat fuel >= len (prune_spec t O) + 2.
 Hypothesis Hsize : lsum (ls ++ [V]) + pend <= T0.
@@ -414,7 +490,7 @@ Lemma open_CI2 : CI2 c cid lo hi t V O T0 (fst (mstep c s (EOpen cid lo hi))) (-
 Proof.
   pose proof open_HsV as HsV. pose proof open_HsO as HsO. pose proof open_HoldO as HoldO.
   destruct (step_inv c Hio Hhv s (EOpen cid lo hi) HI) as [HI' _].
-  pose proof (seq_mono c s (EOpen cid lo hi)) as Hseq.
+  pose proof (seq_mono c s (EOpen cid lo hi)) as Hseq. pose proof (vis_mono c s (EOpen cid lo hi) Hvis) as Hvm.
   assert (0 <= T0) as HT0 by (pose proof (lsum_nonneg (ls ++ [V])); lia).
   pose proof (fuel_T0 c O T0 Hfuel1 HT0) as Hfu.
   cbn [mstep] in *. rewrite Hfs in *. unfold do_open in *. cbv zeta in *.
@@ -451,7 +527,8 @@ Proof.
   assert (forall m, look_of s4 m = look_of s m) as Hlk4.
   { intros m. transitivity (look_of s2 m); [|apply Hlook]. apply look_of_mts. unfold s4, s3. destruct (cf_cache c); reflexivity. }
   assert (tabs V s4 (open_mems s) = ls ++ [V]) as Etabs by (unfold tabs, ls; f_equal; apply map_ext; exact Hlk4).
-  split; [exact HI'|]. split; [lia|]. exists (mkScan cid (ms_vis s) (open_mems s) (ms_cur s) true x). split.
+  split; [exact HI'|]. split; [split; [exact (proj1 Hvm)|split; [exact (proj2 Hvm)|intros e He; apply HVt; eapply V_in_files; eauto]]|].
+  exists (mkScan cid (ms_vis s) (open_mems s) (ms_cur s) true x). split.
   { unfold find_scan, s4. cbn [ms_scans set_scans].
     assert (ms_scans s3 = ms_scans s) as -> by (unfold s3; destruct (cf_cache c); cbn [ms_scans set_cache]; apply (fold_upd_fields mt_add_iter (open_mems s) (take_snapshot s))).
     rewrite ProofsLeaf.find_app. unfold find_scan in Hfs. rewrite Hfs. cbn [find sc_id]. rewrite N.eqb_refl. reflexivity. }
@@ -476,21 +553,21 @@ End Open2.
 Lemma open_mems_len s : len (map (look_of s) (open_mems s)) <= 2.
 Proof. unfold open_mems. destruct (ms_imm s); cbn; lia. Qed.
 
-Theorem snapshot_stable c cid lo hi s es : cf_iter_owns c = true -> cf_holds_ver c = true -> Inv s ->
-  find_scan s cid = None -> open_wfb c s lo hi = true -> open_tsb s = true ->
+Theorem snapshot_stable_P c cid lo hi s es : cf_iter_owns c = true -> cf_holds_ver c = true -> Inv s ->
+  find_scan s cid = None ->
+  scan_wf lo hi (map (look_of s) (open_mems s)) (cur_levels s) -> distinct (all_entries (map (look_of s) (open_mems s)) (cur_levels s)) ->
+  open_tsb s = true ->
   forallb (held_ok cid) es = true -> fuel_enoughb c s es = true ->
   Forall no_err (snd (mrun c s (EOpen cid lo hi :: es))) ->
   cursor_trace cid (EOpen cid lo hi :: es) (snd (mrun c s (EOpen cid lo hi :: es))) = ref_trace (scan_spec s lo hi) (-1) cid es.
 Proof.
-  intros Hio Hhv HI Hfs Hwfb Htsb Hok Hfb Hne.
-  set (ls := map (look_of s) (open_mems s)). set (v := cur_levels s). set (t := ms_vis s). set (V := ver_list lo hi v).
+  intros Hio Hhv HI Hfs Hwf Hd Htsb Hok Hfb Hne.
+  set (ls := map (look_of s) (open_mems s)) in *. set (v := cur_levels s) in *. set (t := ms_vis s). set (V := ver_list lo hi v).
   set (O := old t (merge_spec (top_parts lo hi ls v))). set (T0 := run_bound s es).
-  assert (scan_wf lo hi ls v /\ distinct (all_entries ls v)) as [Hwf Hd].
-  { unfold open_wfb in Hwfb. apply andb_prop in Hwfb. destruct Hwfb as [H _]. apply andb_prop in H. destruct H as [H1 H2].
-    split; [now apply scan_wfb_ok|now apply distinct_of_bool]. }
-  assert ((t <= ms_seq s)%N /\ forall e, In e (all_entries ls v) -> (ets e <= ms_seq s)%N) as [Hvis Hts].
-  { unfold open_tsb in Htsb. apply andb_prop in Htsb. destruct Htsb as [H1 H2]. split; [now apply N.leb_le in H1|].
-    intros e He. rewrite forallb_forall in H2. apply N.leb_le. now apply H2. }
+  assert ((t <= ms_seq s)%N /\ (forall e, In e (all_entries ls v) -> (ets e <= ms_seq s)%N) /\
+          (forall e, In e (concat (map f_ents (concat v))) -> (ets e <= t)%N)) as [Hvis [Hts HVt]].
+  { unfold open_tsb in Htsb. apply andb_prop in Htsb. destruct Htsb as [H12 H3]. apply andb_prop in H12. destruct H12 as [H1 H2].
+    split; [now apply N.leb_le in H1|]. split; intros e He; [rewrite forallb_forall in H2|rewrite forallb_forall in H3]; apply N.leb_le; auto. }
   pose proof (pending_nonneg es) as Hp0.
   assert (0 <= scan_total s) as Htot0 by (unfold scan_total; lia).
   assert (len O <= scan_total s) as HlenO.
@@ -512,9 +589,22 @@ Proof.
   assert (no_err o) as Ho.
   { destruct o as [|ob|er]; [exact I|exact I|]. cbn [snd] in Hne. inversion Hne; subst. assumption. }
   pose proof (open_CI2 c Hio Hhv cid lo hi s T0 (pending es) HI Hfs) as HC. rewrite E in HC. cbn [fst snd] in HC.
-  specialize (HC Ho Hwf Hd Hvis Hts Hfuel1 Hsize Hp0). fold ls v t V O in HC.
+  specialize (HC Ho Hwf Hd Hvis Hts HVt Hfuel1 Hsize Hp0). fold ls v t V O in HC.
   pose proof (held_run2 c Hio Hhv cid lo hi t V O T0 (open_HsV lo hi s Hwf) (open_HsO lo hi s Hwf) (open_HoldO lo hi s) Hfuel1 Hfuel2 HT0 es s' (-1) (pending es) HC Hok ltac:(lia)) as H.
   destruct o as [|ob|er]; [| |destruct Ho].
   - destruct (mrun c s' es) as [s'' os] eqn:Er. cbn [snd cursor_trace app] in *. inversion Hne as [|? ? _ Hrest]; subst. exact (H Hrest).
   - destruct (mrun c s' es) as [s'' os] eqn:Er. cbn [snd cursor_trace app] in *. inversion Hne as [|? ? _ Hrest]; subst. exact (H Hrest).
+Qed.
+
+Theorem snapshot_stable c cid lo hi s es : cf_iter_owns c = true -> cf_holds_ver c = true -> Inv s ->
+  find_scan s cid = None -> open_wfb c s lo hi = true -> open_tsb s = true ->
+  forallb (held_ok cid) es = true -> fuel_enoughb c s es = true ->
+  Forall no_err (snd (mrun c s (EOpen cid lo hi :: es))) ->
+  cursor_trace cid (EOpen cid lo hi :: es) (snd (mrun c s (EOpen cid lo hi :: es))) = ref_trace (scan_spec s lo hi) (-1) cid es.
+Proof.
+  intros Hio Hhv HI Hfs Hwfb Htsb Hok Hfb Hne.
+  assert (scan_wf lo hi (map (look_of s) (open_mems s)) (cur_levels s) /\ distinct (all_entries (map (look_of s) (open_mems s)) (cur_levels s))) as [Hwf Hd].
+  { unfold open_wfb in Hwfb. apply andb_prop in Hwfb. destruct Hwfb as [H _]. apply andb_prop in H. destruct H as [H1 H2].
+    split; [now apply scan_wfb_ok|now apply distinct_of_bool]. }
+  now apply snapshot_stable_P.
 Qed.
